@@ -34,7 +34,7 @@ COMPONENTS = {
     "real": ["_perturb_variables / _apply_bounds", "GradientConfig.fix_perturbations", "VariableScaler", "EnsembleEvaluator"],
     "stub": ["sim/inject sampler (chooses every sample)", "SimEvaluator", "sim/scripted optimizer"],
 }
-PROBES = ["retaining_sampler", "vectors_compared", "left_bounds", "none_outside_bounds", "truncated", "mirrored_single", "mirror_multi_width",
+PROBES = ["evaluator_overwrites_its_input", "retaining_sampler", "vectors_compared", "left_bounds", "none_outside_bounds", "truncated", "mirrored_single", "mirror_multi_width",
           "relative_magnitude", "infinite_bound_side", "evaluator_rows_compared", "two_samplers", "with_variable_transform"]
 
 
@@ -86,6 +86,15 @@ def generate(seed: int, index: int, tier: str) -> dict:
     for e in cfg["optimizer"]["options"]["script"]:
         e["pts"] = [rng.randrange(-1, 2) for _ in e["pts"]]
     scn["stratum"] = "monitor"
+    if rng.random() < 0.2:
+        # an evaluator that works in place on the array of variables it is handed: the reported perturbed vectors (and
+        # the differences the gradient is estimated from) must not follow what the evaluator did to its argument.
+        # Every request kind is made: functions, the gradient alone at the cached point, both at once.
+        scn["mode"] = dict(scn.get("mode") or {}, scribble_input=True)
+        p0 = rng.randrange(-1, 2)
+        cfg["optimizer"]["options"]["script"] = [{"op": "f", "pts": [p0]}, {"op": "g", "pts": [p0]},
+                                                 {"op": "fg", "pts": [rng.randrange(-1, 2)]}]
+        scn["stratum"] = "evaluator-overwrites-its-input"
     return scn
 
 
@@ -102,6 +111,8 @@ def execute(scn: dict) -> dict:
     def probe(name, n=1):
         probes[name] = probes.get(name, 0) + n
 
+    if (scn.get("mode") or {}).get("scribble_input") and ctx.evaluator.fired.get("input_array_overwritten"):
+        probe("evaluator_overwrites_its_input")
     retaining = any((s.get("options") or {}).get("retain") for s in scn["configs"][0]["samplers"])
     tampered = backend.sweep_retained()
     if retaining:
